@@ -1074,8 +1074,10 @@ theorem catOK_store_plain {s : XState} (idx : Nat) (c : Cmd) (hc : c.isPlain = t
   have hstep : (stepX s idx (.store c)).1 = s.setCat "" { s.loc with st := (apply s.loc.st idx c).1 } := by
     cases c <;> first | (simp [Cmd.isPlain] at hc; done) | (simp only [stepX]; unfold XState.setCat; simp)
   rw [hstep]
-  have k := CatStep.setCat (p := "") s { s.loc with st := (apply s.loc.st idx c).1 }
-  have hno := noOrphan_apply_plain idx c hc (by rw [loc_eq_cat]; exact hs.orphan "")
+  have k : CatStep "" s (s.setCat "" { s.loc with st := (apply s.loc.st idx c).1 }) (apply s.loc.st idx c).1 :=
+    CatStep.setCat (p := "") s { s.loc with st := (apply s.loc.st idx c).1 }
+  have hloc : NoOrphan s.loc.st := by have := hs.orphan ""; rw [← loc_eq_cat] at this; exact this
+  have hno := noOrphan_apply_plain idx c hc hloc
   exact ⟨orphan_of_step k hs.orphan hno,
     coords_of_step k (setCat_coords _ _ _) (fun m hm => by
       rw [nodeFind_congr (nodes_apply_plain idx c hc)]; rw [← loc_eq_cat] at hm; exact hm) hs⟩
